@@ -105,7 +105,7 @@ IsStoreClass(o) == IsSt(o) \/ IsStx(o) \/ IsXadd(o)
 (* clears the unused ones (C16: "canonical form").                         *)
 (***************************************************************************)
 UsesDst(o) == ~(IsLdAbs(o) \/ IsLdInd(o) \/ o = JA \/ o = CALL \/ o = EXIT \/ o = TAIL_CALL)
-UsesSrc(o) == \/ IsLdInd(o) \/ IsLdx(o) \/ IsStx(o) \/ IsXadd(o)
+UsesSrc(o) == \/ IsLdInd(o) \/ IsLdx(o) \/ IsStx(o) \/ IsXadd(o) \/ o = CALL      \* (call: the kind)
               \/ ((IsAlu32(o) \/ IsAlu64(o) \/ IsCondJmp(o) \/ IsCondJmp32(o)) /\ SrcBit(o) = 1)
 UsesOff(o) == IsLdx(o) \/ IsSt(o) \/ IsStx(o) \/ IsXadd(o) \/ IsJump(o)
 UsesImm(o) == \/ IsLdAbs(o) \/ IsLdInd(o) \/ IsLddw(o) \/ IsSt(o) \/ IsEndian(o) \/ o = CALL
